@@ -142,6 +142,5 @@ func c13Pair[V univers.Version[V], VR univers.VersionRange[V]](e univers.Ecosyst
 	vv.Reached()
 	vv.Assume(gemValid(a))
 	vv.Assume(gemValid(b))
-	vv.Assume(!vv.Known("KF-C13-gem-hyphen-not-pre", orb(hasHyphen(a), hasHyphen(b))))
 	vv.Assert(sign(va.Compare(vb)) == gemCompare(a, b), "C13: order differs from Gem::Version#<=>")
 }
